@@ -251,6 +251,173 @@ def _soa(fn: ast.AST, dcs: Dict[str, Dict[str, ast.expr]]) -> bool:
     return changed
 
 
+def dataclass_fields(P: Program) -> Dict[str, List[Tuple[str, Optional[ast.expr]]]]:
+    """new (non-pinned) @dataclass classes without bases and without __post_init__: name -> [(field, simple default or None)] in declaration order"""
+    from .util import pinned_class_names
+    pinned = pinned_class_names()
+    out: Dict[str, List[Tuple[str, Optional[ast.expr]]]] = {}
+    seen: Set[str] = set()
+    for m in P.real_modules():
+        for n in ast.walk(m.tree):
+            if not (isinstance(n, ast.ClassDef) and n.name not in pinned and not n.bases
+                    and any(norm.U(d).split("(")[0].split(".")[-1] == "dataclass" for d in n.decorator_list)):
+                continue
+            fl: List[Tuple[str, Optional[ast.expr]]] = []
+            ok = True
+            for st in n.body:
+                if isinstance(st, ast.AnnAssign) and isinstance(st.target, ast.Name):
+                    v = st.value
+                    if v is None or isinstance(v, ast.Constant) or (isinstance(v, ast.UnaryOp) and isinstance(v.operand, ast.Constant)):
+                        fl.append((st.target.id, v))
+                    else:
+                        ok = False
+                elif isinstance(st, ast.FunctionDef) and st.name in ("__post_init__", "__setattr__", "__getattr__", "__getattribute__", "__eq__", "__hash__"):
+                    ok = False
+                elif isinstance(st, ast.Assign):
+                    ok = False
+            if any(isinstance(d, ast.Call) and d.keywords for d in n.decorator_list):
+                ok = False       # frozen / slots / order ...: not a plain record
+            if n.name in seen:
+                out.pop(n.name, None)
+            elif ok and fl:
+                out[n.name] = fl
+            seen.add(n.name)
+    return out
+
+
+def _aod(fn: ast.AST, dfs: Dict[str, List[Tuple[str, Optional[ast.expr]]]]) -> bool:
+    """A local table  D = {}; D[k] = R(f=e, ..)  whose entries are used only as  D[k].f,  through a per-iteration alias  b = D[k]; b.f,  or as
+    vars(..)  is a table of plain dicts:  D[k] = {'f': e, ..};  D[k].f / b.f -> D[k]['f'];  vars(b) -> D[k]."""
+    parents: Dict[int, ast.AST] = {}
+    for n in ast.walk(fn):
+        for ch in ast.iter_child_nodes(n):
+            parents[id(ch)] = n
+    changed = False
+    for d in [n for n in ast.walk(fn) if isinstance(n, (ast.Assign, ast.AnnAssign))]:
+        tg = d.targets[0] if isinstance(d, ast.Assign) and len(d.targets) == 1 else (d.target if isinstance(d, ast.AnnAssign) else None)
+        if not (isinstance(tg, ast.Name) and isinstance(d.value, ast.Dict) and not d.value.keys):
+            continue
+        D = tg.id
+        occ = [n for n in ast.walk(fn) if isinstance(n, ast.Name) and n.id == D]
+        if sum(1 for n in occ if isinstance(n.ctx, (ast.Store, ast.Del))) != 1:
+            continue
+        ctors, uses, aliases = [], [], {}
+        R = None
+        ok = True
+
+        def use_of(holder, key_expr):
+            """holder: the expression standing for one entry (D[k] or an alias name)"""
+            p = parents.get(id(holder))
+            if isinstance(p, ast.Attribute) and p.value is holder:
+                uses.append(("field", p, key_expr))
+                return True
+            if isinstance(p, ast.Call) and norm.is_name(p.func, "vars") and len(p.args) == 1 and p.args[0] is holder and not p.keywords:
+                uses.append(("vars", p, key_expr))
+                return True
+            return False
+        for n in occ:
+            if not isinstance(n.ctx, ast.Load):
+                continue
+            p = parents.get(id(n))
+            if not (isinstance(p, ast.Subscript) and p.value is n and not isinstance(p.slice, ast.Slice)):
+                ok = False
+                break
+            pp = parents.get(id(p))
+            if isinstance(p.ctx, ast.Store):
+                if isinstance(pp, ast.Assign) and len(pp.targets) == 1 and pp.targets[0] is p and isinstance(pp.value, ast.Call) and isinstance(pp.value.func, ast.Name) \
+                        and pp.value.func.id in dfs and R in (None, pp.value.func.id):
+                    R = pp.value.func.id
+                    ctors.append(pp)
+                else:
+                    ok = False
+                    break
+            elif isinstance(pp, ast.Assign) and pp.value is p and len(pp.targets) == 1 and isinstance(pp.targets[0], ast.Name):
+                aliases[pp.targets[0].id] = pp
+            elif not use_of(p, p):
+                ok = False
+                break
+        if not ok or R is None or not ctors:
+            continue
+        fields = [x for x, _ in dfs[R]]
+        for a, adef in aliases.items():
+            aocc = [n for n in ast.walk(fn) if isinstance(n, ast.Name) and n.id == a]
+            if sum(1 for n in aocc if isinstance(n.ctx, (ast.Store, ast.Del))) != 1:
+                ok = False
+                break
+            # the key must mean the same at every use of the alias: a loop variable of a loop that holds the alias and all its uses, or a constant
+            key = adef.value.slice
+            if isinstance(key, ast.Name):
+                lp = parents.get(id(adef))
+                while lp is not None and not (isinstance(lp, ast.For) and norm.is_name(lp.target, key.id)):
+                    lp = parents.get(id(lp))
+                inside = {id(x) for x in ast.walk(lp)} if lp is not None else set()
+                binds = [x for x in ast.walk(fn) if isinstance(x, ast.Name) and x.id == key.id and isinstance(x.ctx, (ast.Store, ast.Del)) and id(x) in inside and x is not lp.target] if lp is not None else [1]
+                if lp is None or binds or any(id(n) not in inside for n in aocc):
+                    ok = False
+                    break
+            elif not isinstance(key, ast.Constant):
+                ok = False
+                break
+            for n in aocc:
+                if isinstance(n.ctx, ast.Load) and not use_of(n, adef.value):
+                    ok = False
+        if not ok:
+            continue
+        if any(u[0] == "field" and u[1].attr not in fields for u in uses):
+            continue
+        # constructor calls -> dict displays
+        plan = []
+        for c in ctors:
+            call = c.value
+            if len(call.args) > len(fields) or any(k.arg is None or k.arg not in fields for k in call.keywords):
+                ok = False
+                break
+            vals: Dict[str, ast.expr] = {fl: a_ for fl, a_ in zip(fields, call.args)}
+            for k in call.keywords:
+                vals[k.arg] = k.value
+            for fl, dflt in dfs[R]:
+                if fl not in vals:
+                    if dflt is None:
+                        ok = False
+                    else:
+                        vals[fl] = norm.clone(dflt)
+            plan.append((c, vals))
+        if not ok:
+            continue
+        for c, vals in plan:
+            c.value = ast.copy_location(ast.Dict(keys=[ast.Constant(value=fl) for fl in fields], values=[vals[fl] for fl in fields]), c.value)
+        for kind, node_, entry in uses:
+            ent = norm.clone(entry)
+            for x in ast.walk(ent):
+                if isinstance(x, (ast.Subscript, ast.Name, ast.Attribute)):
+                    x.ctx = ast.Load()
+            if kind == "field":
+                fname = node_.attr
+                ctx_ = node_.ctx
+                node_.__class__ = ast.Subscript
+                node_.__dict__.pop("attr", None)
+                node_.value = ent
+                node_.slice = ast.Constant(value=fname)
+                node_.ctx = ctx_
+            else:
+                node_.__class__ = ast.Subscript
+                for k_ in ("func", "args", "keywords"):
+                    node_.__dict__.pop(k_, None)
+                node_.value = ent.value
+                node_.slice = ent.slice
+                node_.ctx = ast.Load()
+        # the alias definitions are dead now
+        for a, adef in aliases.items():
+            par = parents.get(id(adef))
+            for fld in ("body", "orelse", "finalbody"):
+                b = getattr(par, fld, None)
+                if isinstance(b, list) and any(x is adef for x in b):
+                    b[:] = [x for x in b if x is not adef] or [ast.copy_location(ast.Pass(), adef)]
+        changed = True
+        ast.fix_missing_locations(fn)
+    return changed
+
+
 def _ctor(e: ast.AST, recs: Dict[str, Rec]) -> Optional[Rec]:
     if isinstance(e, ast.Call) and isinstance(e.func, ast.Name) and e.func.id in recs:
         return recs[e.func.id]
@@ -370,6 +537,7 @@ def _tuple_of(r: Rec, c: ast.Call) -> Optional[ast.expr]:
     return ast.Tuple(elts=[vals[f] for f in r.fields], ctx=ast.Load())
 
 
+_DF_CACHE: Dict = {}
 _DC_CACHE: Dict = {}
 
 
@@ -379,19 +547,24 @@ def erase(P: Program, f: Func) -> Func:
     if kd not in _DC_CACHE or _DC_CACHE[kd][0] is not P:
         _DC_CACHE[kd] = (P, dataclasses_(P))
     dcs = _DC_CACHE[kd][1]
-    if not recs and not dcs:
+    if kd not in _DF_CACHE or _DF_CACHE[kd][0] is not P:
+        _DF_CACHE[kd] = (P, dataclass_fields(P))
+    dfs = _DF_CACHE[kd][1]
+    if not recs and not dcs and not dfs:
         return f
     k = (id(P), id(f.node))
     hit = _ERASE_CACHE.get(k)
     if hit is not None and hit[0] is P and hit[1] is f.node:
         return hit[2]
     names_used = {n.id for n in ast.walk(f.node) if isinstance(n, ast.Name)}
-    if not (names_used & (set(recs) | set(dcs))):
+    if not (names_used & (set(recs) | set(dcs) | set(dfs))):
         _ERASE_CACHE[k] = (P, f.node, f)
         return f
     node = norm.clone(f.node)
     if names_used & set(dcs):
         _soa(node, dcs)
+    if names_used & set(dfs):
+        _aod(node, dfs)
     ty = _Types(node, recs)
 
     class T(ast.NodeTransformer):
